@@ -4,7 +4,9 @@ pipeline of every intermediate stream vs the Lean model.  Oracle: plain-Python b
 (filter source rows, select by name in order, slice in order); every intermediate stream is listed again
 after all later steps and twice in a row."""
 import copy
+import ast
 import csv
+import zlib
 import hashlib
 import itertools
 import os
@@ -100,7 +102,21 @@ def run_impl(fns, kind, names, rows, ops, tmpdir):
         if k is None:
             break
         try:
-            cur = cur[key_py(k, CE)]
+            key = key_py(k, CE)
+            if k[0] == "cond" and k[1].count(".") == 1 and not k[3].startswith(SID + ".") and \
+                    zlib.crc32(repr((names, ops)).encode()) % 3 == 0:
+                # the same clause built with the comparison operators of a column stream that was stepped before
+                # (`col = t[c][a:b]; t[col > v]`): the steps of the operand do not enter the clause
+                try:
+                    lit = ast.literal_eval(k[3])
+                    operand = make_stream(fns, kind, names, rows, tmpdir)[k[1].split(".", 1)[1]][0:][::1]
+                    built = {"<": operand.__lt__, ">": operand.__gt__, "<=": operand.__le__, ">=": operand.__ge__,
+                             "=": operand.__eq__, "!=": operand.__ne__}[k[2]](lit)
+                    if isinstance(built, CE):
+                        key = built
+                except (ValueError, SyntaxError, KeyError):
+                    pass        # not a literal / not a column: the text form is used
+            cur = cur[key]
         except Exception as e:
             err = type(e).__name__
             parts.append("getitem:" + err)
